@@ -354,7 +354,7 @@ Proof.
        let '(fin, c4) :=
          match f with
          | None => ([], c3)
-         | Some f0 => let '(rf, c4) := cbranch f0 rempty None c3 in (rs (radd rf (expr_as_stmt rf)), c4)
+         | Some f0 => let '(rf, c4) := cbranch f0 rempty None c3 in (or_pass (rs (radd rf (expr_as_stmt rf))), c4)
          end in
        let body_stmts :=
          or_pass (match orel with
@@ -386,14 +386,14 @@ Proof.
       destruct Ho as [L3 O3].
       destruct (match f with
                 | None => ([], c3)
-                | Some f0 => let '(rf, c4) := cbranch f0 rempty None c3 in (rs (radd rf (expr_as_stmt rf)), c4)
+                | Some f0 => let '(rf, c4) := cbranch f0 rempty None c3 in (or_pass (rs (radd rf (expr_as_stmt rf))), c4)
                 end) as [fin c4] eqn:Ef.
       assert (Hf : fst c3 <= fst c4 /\ tL (inr (fst c) (fst c4)) fin = true).
       { destruct f as [f0|]; [|inversion Ef; subst; split; [lia | reflexivity]].
         destruct (cbranch f0 rempty None c3) as [rf c4'] eqn:Erf. inversion Ef; subst.
         destruct (cbranch_range f0 H2 (fst c) _ _ _ _ _ Erf) as [L4 R4]; [lia | apply tR_rempty | exact I|].
         split; [exact L4|]. assert (Q : tR (inr (fst c) (fst c4)) (radd rf (expr_as_stmt rf)) = true) by (apply tR_radd; [|apply tR_eas]; exact R4).
-        parts Q. exact A. }
+        parts Q. apply tL_or_pass. exact A. }
       destruct Hf as [L4 F4]. inversion Hc; subst. split; [lia|].
       assert (Hv : inr (fst c) (fst c') (S (fst c1)) = true) by (eapply inr_mono; [| |exact Hv1]; lia).
       assert (Rb : tR (inr (fst c) (fst c')) rb = true) by (eapply tR_inr; [| |exact R1]; lia).
